@@ -390,7 +390,7 @@ def threading(eng: Engine, ctx: Ctx, rid: str, model: DecoderModel):
     cyc = set(eng.decoder_cycle) | {eng.single_field_routine}
     names = {q.split(".")[-1]: q for q in cyc}
     single = eng.single_field_routine.split(".")[-1]
-    for q in sorted(set(eng.decoder_cycle) | {eng.attributes_driver}):
+    for q in sorted((set(eng.decoder_cycle) - set(eng.cycle_helpers)) | {eng.attributes_driver}):  # forwarding helpers are inlined into their callers
         f = eng.repo.func(q)
         ctx.touch(func=q)
         se = eng.symeval(q)
@@ -436,6 +436,57 @@ def threading(eng: Engine, ctx: Ctx, rid: str, model: DecoderModel):
                 oke = end is None or valid(end, seen2)
                 return okp and oke
             return False
+
+        # ---- the other arguments: the index stack is threaded like the offset; the dispatcher gets (key, dict) with key drawn from that dict
+        idx_results = {("proj", e.term, 1) for e in calls if e.term[2][2] != single}
+        idxp = ("param", "index") if "index" in f.params else None
+
+        def valid_idx(t, seen=frozenset()):
+            if (idxp is not None and t == idxp) or t in idx_results:
+                return True
+            if q == eng.attributes_driver and t[0] == "list" and not t[1]:
+                return True
+            if t[0] == "upd":
+                return valid_idx(t[1], seen)
+            if t[0] == "ite":
+                return valid_idx(t[2], seen) and valid_idx(t[3], seen)
+            if t[0] in ("loop", "loopout"):
+                key = (t[1], t[2])
+                if key in seen:
+                    return True
+                info = se.loop_info.get(t[1])
+                if not info:
+                    return False
+                pre = (info.get("pre") or {}).get(t[2])
+                end = (info.get("body_end") or {}).get(t[2])
+                return pre is not None and valid_idx(pre, seen | {key}) and (end is None or valid_idx(end, seen | {key}))
+            return False
+
+        disp_name = eng.dispatch_routine.split(".")[-1]
+        sel_name = eng.dict_selector.split(".")[-1]
+        for e in calls:
+            callee = eng.repo.func(names[e.term[2][2]])
+            params = callee.params[1:]
+            kw = dict(e.term[4])
+            args = {p_: (e.term[3][i] if i < len(e.term[3]) else kw.get(p_)) for i, p_ in enumerate(params)}
+            if "index" in args:
+                a = args["index"]
+                ctx.check(a is not None and valid_idx(a), rid, q, f"index stack passed to {norm(e.node)[:60]}", expected="the current index stack (parameter / previous result / the driver's fresh list)", found=show(a)[:80] if a is not None else "missing", **eng.loc(f, e.node))
+            if e.term[2][2] == disp_name and len(params) >= 2:
+                k, d = args.get(params[0]), args.get(params[1])
+                okk = k is not None and d is not None and k[0] == "elem" and k[1] == d
+                ctx.check(okk, rid, q, f"key and dictionary passed to {norm(e.node)[:60]}", expected="each key of the definition dict in turn, with that dict", found=f"{show(k)[:50] if k else '-'}, {show(d)[:50] if d else '-'}", **eng.loc(f, e.node))
+                if q == eng.attributes_driver:
+                    okd = d is not None and d[0] == "call" and d[2] == ("attr", ("self",), sel_name)
+                    ctx.check(okd, rid, q, "definition decoded by the driver", expected=f"the dict returned by self.{sel_name}()", found=show(d)[:60] if d else "-", **eng.loc(f, e.node))
+                elif d is not None:
+                    okd = d[0] == "proj" and d[2] == 1 and d[1][0] == "param"
+                    ctx.check(okd, rid, q, "group body decoded", expected="the dict component of the group definition (adef[1])", found=show(d)[:60], **eng.loc(f, e.node))
+            elif q == eng.dispatch_routine and params:
+                a0 = args.get(params[0])
+                key_p, dict_p = ("param", f.params[1]), ("param", f.params[2])
+                want = key_p if e.term[2][2] == single else ("idx", dict_p, key_p)
+                ctx.check(a0 == want, rid, q, f"first argument of {norm(e.node)[:60]}", expected="the field key for a single field, the definition value pdict[key] for a group", found=show(a0)[:60] if a0 else "-", **eng.loc(f, e.node))
 
         consumed = set()
         ret_terms = [e.term for e in se.effects if e.kind == "return"]
